@@ -7,7 +7,6 @@ import (
 	"os"
 	"runtime/pprof"
 	"strconv"
-
 )
 
 type driver func(args []string) error
